@@ -9,7 +9,7 @@ import core  # noqa: E402
 from coqlit import cZ, cnat, clist  # noqa: E402
 
 ID = "C16"
-THEOREMS = ["c16_write_cell", "c16_write_rows_frame", "c16_append_rows", "c16_append_column", "c16_write_column",
+THEOREMS = ["c16_write_cell", "c16_write_rows_frame", "c16_write_rows_ordered", "c16_append_rows", "c16_append_column", "c16_write_column",
             "c16_refused_unchanged", "c16_reachable_wf", "c16_by_name"]
 HEADER = "From Coq Require Import ZArith List.\nFrom NixV Require Import Base.Prelude Pure.Table Pure.TableCheck.\nImport ListNotations.\nOpen Scope Z_scope.\n"
 TYPES = ["int64", "float64", "bool", "str", "int8", "uint16"]
@@ -65,6 +65,9 @@ def gen_case(rnd, thorough):
         elif r < 0.5:
             k = rnd.randint(1, 3)
             idx = sorted(rnd.sample(range(max(cur_n, 1) + 1), min(k, max(cur_n, 1) + 1))) if rnd.random() < 0.85 else [cur_n + 2]
+            if len(idx) > 1 and rnd.random() < 0.25:
+                # an index list that is not strictly increasing (reversed, shuffled, a row twice): refused by h5py, nothing written
+                idx = rnd.choice([idx[::-1], rnd.sample(idx, len(idx)), idx[:1] + idx[:-1]])
             new = [[cell(rnd, t) for _, t in cur_cols] for _ in idx]
             if rnd.random() < 0.1:
                 new = new[:-1] if len(new) > 1 else new + new
@@ -142,7 +145,8 @@ def spec_failure(obs, ops):
             elif k == "write_column_name":
                 valid = op[2] in n0 and len(op[1]) == len(r0)
             elif k == "write_rows":
-                valid = len(op[1]) == len(op[2]) and all(j < len(r0) for j in op[2]) and all(len(r) == len(n0) for r in op[1])
+                valid = len(op[1]) == len(op[2]) and all(j < len(r0) for j in op[2]) and all(len(r) == len(n0) for r in op[1]) and \
+                    all(a < b for a, b in zip(op[2], op[2][1:]))
             if valid:
                 return i, "a valid %s was refused" % k
             continue
